@@ -50,7 +50,7 @@ func init() {
 
 func c06Workloads() []Workload {
 	wls := workloads(false)
-	return []Workload{wls[0], wls[1], wls[2], wls[4], wls[5], wls[6]}
+	return []Workload{wls[0], wls[1], wls[2], wls[4], wls[5], wls[7], wls[6]}
 }
 
 func faultPhase(f faultSpec, fileSeqOfFirst string) string {
@@ -242,7 +242,7 @@ func checkC06(prop, tier string) int {
 	use := []int{0, 1, 2, 4, 5}
 	counts := []int{1}
 	if tier == "thorough" {
-		use = []int{0, 1, 2, 3, 4, 5}
+		use = []int{0, 1, 2, 3, 4, 5, 6}
 		counts = []int{1, 2, 3, -1}
 	}
 	var jobs []Job
